@@ -36,12 +36,21 @@ BoundNames(prefix, t, tlen, claim, vals, nulls) ==
         maxW == ~claim.hasMax \/ WidthOk(t, tlen, claim.max)
         lo == [hasMin |-> claim.hasMin, min |-> claim.min, hasMax |-> FALSE, max |-> <<>>]
         hi == [hasMin |-> FALSE, min |-> <<>>, hasMax |-> claim.hasMax, max |-> claim.max]
+        both == [hasMin |-> claim.hasMin, min |-> claim.min, hasMax |-> claim.hasMax, max |-> claim.max]
+        \* refuted only if in no admissible order min and max are bounds together
+        refuted == minW /\ maxW /\ \A o \in Orders(t) : ~IsBound(t, o, both, vals)
+        loRef == claim.hasMin /\ LowerRefuted(t, lo, vals)
+        hiRef == claim.hasMax /\ UpperRefuted(t, hi, vals)
+        nanBound == (claim.hasMin /\ IsNaN(t, claim.min)) \/ (claim.hasMax /\ IsNaN(t, claim.max))
     IN (IF ~minW THEN {prefix \o "min-width"} ELSE {})
        \cup (IF ~maxW THEN {prefix \o "max-width"} ELSE {})
-       \cup (IF minW /\ claim.hasMin /\ LowerRefuted(t, lo, vals)
+       \cup (IF refuted /\ loRef
              THEN {prefix \o (IF IsNaN(t, claim.min) THEN "min-nan-not-lower-bound" ELSE "min-not-lower-bound")} ELSE {})
-       \cup (IF maxW /\ claim.hasMax /\ UpperRefuted(t, hi, vals)
+       \cup (IF refuted /\ hiRef
              THEN {prefix \o (IF IsNaN(t, claim.max) THEN "max-nan-not-upper-bound" ELSE "max-not-upper-bound")} ELSE {})
+       \* each side is a bound in some order, but no order makes both of them bounds (e.g. min = max = NaN next to ordered values)
+       \cup (IF refuted /\ ~loRef /\ ~hiRef
+             THEN {prefix \o (IF nanBound THEN "nan-min-max-not-bounds-in-any-order" ELSE "min-max-not-bounds-in-any-order")} ELSE {})
        \cup (IF claim.hasNulls /\ claim.nulls # nulls THEN {prefix \o "null-count"} ELSE {})
 
 \* the two field pairs of a parsed Statistics struct (ParquetFile.StatsOf) as claims
